@@ -607,12 +607,13 @@ def check(prop, tier, only=None, keep=False, seed=0):
         if not keep: shutil.rmtree(scratch, ignore_errors=True)
         else: log('scratch kept at', scratch)
     # report
-    os.makedirs(os.path.join(VERIF, 'replays', prop), exist_ok=True)
+    rdir = os.path.join(tempfile.gettempdir(), 'verif_replays_mutated', prop) if os.environ.get('VERIF_NO_EVIDENCE') else os.path.join(VERIF, 'replays', prop)
+    os.makedirs(rdir, exist_ok=True)
     nviol = 0
     for r in results:
         if r['status'] == 'violation':
             nviol += 1
-            rp = os.path.join(VERIF, 'replays', prop, '%s.json' % r['obligation'])
+            rp = os.path.join(rdir, '%s.json' % r['obligation'])
             json.dump({'property': prop, 'obligation': r['obligation'], 'harness': r['harness'], 'input_hex': r['cex'].get('inputs'),
                        'violated': r['cex']['desc'], 'where': r['cex'].get('where'), 'native': r['cex'].get('native')}, open(rp, 'w'), indent=1)
             print('VIOLATION property=%s replay=%s' % (prop, rp))
@@ -645,8 +646,13 @@ def check(prop, tier, only=None, keep=False, seed=0):
         'wall_s': round(wall, 2),
         'violations': nviol,
     }
-    os.makedirs(os.path.join(VERIF, 'evidence'), exist_ok=True)
-    json.dump(ev, open(os.path.join(VERIF, 'evidence', prop + '.json'), 'w'), indent=1)
+    if os.environ.get('VERIF_NO_EVIDENCE'):
+        # runs against a deliberately modified /repo (bin/try_mutation, bin/try_revert) must not replace the evidence of the unchanged tree
+        ev_path = os.path.join(tempfile.gettempdir(), 'verif_evidence_%s_mutated.json' % prop)
+    else:
+        os.makedirs(os.path.join(VERIF, 'evidence'), exist_ok=True)
+        ev_path = os.path.join(VERIF, 'evidence', prop + '.json')
+    json.dump(ev, open(ev_path, 'w'), indent=1)
     for r in results:
         log('[%s] %-40s %-12s backend=%s wall=%ss %s' % (prop, r['obligation'], r['status'], r.get('backend'), r.get('wall_s'), (r.get('error') or '')[:300]))
     for e in engine_errors: log('ENGINE-ERROR:', e[:3000])
